@@ -16,13 +16,15 @@ cw.native_witnesses = ["c11_wit_query_declarations_come_after_the_models_feature
 ins = VerusUnit("c11_instance", "c11_instance", rlimit=30)
 ft = VerusUnit("c11_feature", "c11_feature", rlimit=30)
 UNITS = [v_unit, sm, ex, ins, ft, k_unit, ew, cw]
-EXPLANATION = ("CompactOrderedHashMap::{empty,len,is_empty,contains_key,get,get_index,insert} extracted verbatim and verified by Verus at every size "
+EXPLANATION = ("CompactOrderedHashMap::{empty,len,is_empty,contains_key,get,get_index,get_pair,insert} and the iterator's next extracted verbatim and verified by Verus at every size "
                "against an abstract (slot map, value map) view with a whole-view postcondition for insert; representation invariant: slots < len, pairwise distinct; "
+               "'the slots are 0..n-1 with none shared or skipped' (pigeonhole lemma, proved by induction): with the invariant EVERY slot below len is owned by a key; "
+               "'iteration by ascending index': get_pair(i) hands out THE key that owns slot i with its current value, the iterator's next hands out slot index and moves on, and returns None exactly at len -- so iteration yields all len entries, in slot order, none twice; "
                "StateModel::extend (verbatim, Verus, any number of entries): the per-query model is the configured container with every declared (name, feature) inserted in order -- an existing name keeps its slot "
                "and takes the declared feature, new names are appended; refused exactly when a declaration meets a same-named feature that differs under StateFeature's ==; StateModel accessors: frame (unit c03_statemodel); StateFeature::get_initial / StateModel::initial_state (unit c11_feature, verbatim): the initial state has exactly n entries, entry i holding the DECLARED initial value of the feature at slot i, for every kind; an initial value that cannot be encoded is an error; "
                "SearchApp::build_search_instance (verbatim, Verus, callees through deterministic contracts): the per-query state model IS the configured model extended by the features collected for this query, and the cost model "
                "and the frontier model are built against THAT model -- the one the search instance carries -- never the configured one (the same unit carries SearchApp::run and its two oriented variants: see C01)")
-NOT_DECIDED = ("get_pair / keys / iter / to_vec / new on the HashMap-backed representation (sizes >= 5) are only exercised by concrete witnesses "
+NOT_DECIDED = ("keys / to_vec / new / into_iter on the HashMap-backed representation (sizes >= 5) are only exercised by concrete witnesses "
                "(Verus rejects their iterator-adapter text, CBMC cannot carry symbolic HashMap keys); StateModel::new / iter (iterator adapters; witnesses); FromIterator (witness); the clone pipeline at the head of extend (assumed equal container; witness); collect_features (HashMap pipelines: witness only)")
-ASSUMPTIONS = ["R6: key and value types instantiated at u64 (Eq/Hash/Clone laws of the real key types String/EdgeId assumed)",
+ASSUMPTIONS = ["HashMap::iter().find(p) returns the first visited entry satisfying p and None only if none does (helper verif_find_slot)", "R6: key and value types instantiated at u64 (Eq/Hash/Clone laws of the real key types String/EdgeId assumed)",
                "assumed contract of std HashMap::from([(K,V); N]) (inserts the pairs in order)"]
